@@ -39,6 +39,9 @@ def main():
     shutil.copy(os.path.join(src, 'patch%s.diff' % fsuf), os.path.join(dst, 'patch.diff'))
     shutil.copy(os.path.join(src, 'demo%s.py' % fsuf), os.path.join(dst, 'demo.py'))
     shutil.copy(os.path.join(src, 'NOTES.md'), os.path.join(dst, 'NOTES.md'))
+    helpers = [f for f in os.listdir(src) if f.endswith('.py') and not f.startswith('demo') or f == 'demo_common.py']
+    for f in helpers:
+        shutil.copy(os.path.join(src, f), os.path.join(dst, f))
     patch = os.path.join(dst, 'patch.diff')
     meta = {'breaks': pid, 'source': 'independent sub-agent given only the property text and a scratch worktree'}
     rc, out = sh('git -C /repo apply --check %s' % patch)
@@ -56,6 +59,8 @@ def main():
         os.makedirs(demo, exist_ok=True)
         txt = open(os.path.join(dst, 'demo.py')).read().replace(root, wt)
         open(os.path.join(demo, 'demo.py'), 'w').write(txt)
+        for f in helpers:
+            open(os.path.join(demo, f), 'w').write(open(os.path.join(dst, f)).read().replace(root, wt))
         env = dict(os.environ, PYTHONPATH=wt, PYTHONDONTWRITEBYTECODE='1')
         t0 = time.time()
         rc0, out0 = sh('%s _out/demo.py' % PY, cwd=wt, timeout=300, env=env)
